@@ -19,7 +19,7 @@ Fam == {W1(n) : n \in Widths} \cup {W2(n) : n \in Widths} \cup {W3(n) : n \in Wi
 Init == m \in Fam
 Next == UNCHANGED m
 Spec == Init /\ [][Next]_m
-Idxs == {0, 1, 30, 31, 32, 33, 63, 64}
+Idxs == {0, 1, 30, 31, 32, 33, 63, 64, 255, 256, 299}
 P1(a) == <<PK(a, -1)>>
 P2(a, b) == <<PK(a, -1), PK(b, -1)>>
 Paths == {P1("a"), P1("*"), P2("a", "b"), P2("a", "*"), P2("*", "b"), P2("*", "*"), P2("a", "c"),
@@ -34,6 +34,9 @@ KCase(key, cs) == [key |-> key, conds |-> SetToSeq(cs), r |-> VFK(m, key, cs)]
 ThmDenotes == \A p \in {q \in Paths : \A i \in 1..Len(q) : q[i].idx < 0} : DenotesThm(m, Names(p))
 ThmKeySearch == \A key \in {"a", "b", "c"} : KeySearchThm(m, key)
 EmitVfp == DoEmit => PrintT(ToJson([f |-> "vfp", m |-> m, cs |-> SetToSeq({Case(p) : p \in Paths})]))
+\* C09 on lists longer than 256 members: every leaf path (a[N] / a.N notation) and its value; the harness resolves each path again
+LCase(na, dot) == [na |-> na, dot |-> dot, ak |-> <<>>, r |-> LeafSeq(m, na, dot, {}, "#text")]
+EmitLeaf == DoEmit => PrintT(ToJson([f |-> "leaf", m |-> m, cs |-> SetToSeq({LCase(na, dot) : na \in BOOLEAN, dot \in BOOLEAN})]))
 EmitVfk == DoEmit => PrintT(ToJson([f |-> "vfk", m |-> m,
               ks |-> SetToSeq({KCase(key, cs) : key \in {"a", "b", "c", "*", "k1"}, cs \in CondSets}),
               pf |-> <<>>, vp |-> <<>>]))
